@@ -45,14 +45,13 @@ CASES = [
 
 def script_run(text, pred):
   """What `logica.py <file> run <pred>` does on sqlite: statements through one fresh connection."""
+  import csv, io
+  _, _, sqlite3_logica = R.mods()
   prog = R.compile_program(text)
   pre, main = R.statements_for(prog, pred)
-  con = R.connect()
-  try:
-    rows, cols = R.execute(con, pre, main)
-    con.commit()
-  finally:
-    con.close()
+  # the real script runner of the CLI: common.sqlite3_logica.RunSqlScript
+  out = sqlite3_logica.RunSqlScript(list(pre) + [main], 'csv')
+  rows = [tuple(r) for r in list(csv.reader(io.StringIO(out)))[1:]]
   return rows, pre
 
 
@@ -68,7 +67,8 @@ def file_tables(path):
 
 
 def same(a, b):
-  return collections.Counter(map(tuple, a)) == collections.Counter(map(tuple, b))
+  norm = lambda rows: collections.Counter(tuple(str(v) for v in r) for r in rows)
+  return norm(a) == norm(b)
 
 
 def run_case(c, base, tier):
